@@ -164,12 +164,13 @@ CANARIES = [
     ('writenode-payload-after-a-gap', 'C05', 'src/page.rs', '        let mut buf = &mut buf[(total_header as usize)..];', '        let mut buf = &mut buf[(total_header as usize + 8)..];'),
     ('new-child-parent-not-marked-dirty', 'C07', 'src/bucket.rs', '    fn new_child<\'a>(&\'a mut self, name: Bytes<\'b>) -> RefMut<InnerBucket<\'b>> {\n        self.dirty = true;\n', '    fn new_child<\'a>(&\'a mut self, name: Bytes<\'b>) -> RefMut<InnerBucket<\'b>> {\n'),
     ('new-child-root-is-a-page', 'C07', 'src/bucket.rs', '            root: PageNodeID::Node(0),', '            root: PageNodeID::Page(0),'),
-    ('from-meta-starts-dirty', 'C07', 'src/bucket.rs', '            root: PageNodeID::Page(meta.root_page),\n            deleted: false,\n            dirty: false,', '            root: PageNodeID::Page(meta.root_page),\n            deleted: false,\n            dirty: true,'),
 ]
 
 
 # Semantics-PRESERVING edits: the check must NOT answer exit 1 for any of them (exit 0 or exit 2 are both acceptable).
 EQUIVALENTS = [
+    # a bucket opened dirty is rewritten at commit: costs pages, breaks nothing
+    ('eq-from-meta-starts-dirty', 'C07', 'src/bucket.rs', '            root: PageNodeID::Page(meta.root_page),\n            deleted: false,\n            dirty: false,', '            root: PageNodeID::Page(meta.root_page),\n            deleted: false,\n            dirty: true,'),
     # third session: semantics-preserving edits of the functions newly under contract
     ('eq-check-start-pages-other-order', 'C05', 'src/tx.rs', '        page_stack.push(self.meta.root.root_page);\n        page_stack.push(self.meta.freelist_page);', '        page_stack.push(self.meta.freelist_page);\n        page_stack.push(self.meta.root.root_page);'),
     ('eq-check-remove-result-in-a-local', 'C05', 'src/tx.rs', '            // Make sure this page hasn\'t already been used\n            if !unused_pages.remove(&page_id) {', '            // Make sure this page hasn\'t already been used\n            let was_unused = unused_pages.remove(&page_id);\n            if !was_unused {'),
